@@ -27,8 +27,8 @@ func runC07(c *Ctx, r *Report) {
 	r.Doc("R-C07.2", "predecessor/reference lists are converted element-wise from the getter's own result")
 	r.Doc("R-C07.3", "no lossy or ambiguous conversion on the signing path")
 	r.Doc("R-C07.4", "every success return of Verify passed the signature check")
-	th := p.Func("entry", "", "ToHashable")
-	tb := p.Func("entry", "", "toBuffer")
+	th := p.FuncI("entry", "", "ToHashable")
+	tb := p.FuncI("entry", "", "toBuffer")
 	hashT := p.Named("iface", "Hashable")
 	table := []struct{ getter, field string }{
 		{"GetLogID", "ID"}, {"GetPayload", "Payload"}, {"GetNext", "Next"}, {"GetRefs", "Refs"}, {"GetV", "V"}, {"GetClock", "Clock"}, {"GetAdditionalData", "AdditionalData"},
@@ -267,7 +267,7 @@ func ldField(u *ssa.UnOp) *types.Var {
 // public-key signature check performed in this call.
 func verifySigDominates(c *Ctx, r *Report, rule string) {
 	p := c.P
-	verify := p.Func("entry", "Entry", "Verify")
+	verify := p.FuncI("entry", "Entry", "Verify")
 	okVars := map[types.Object]bool{}
 	walkNoLit(verify.Body, func(n ast.Node) bool {
 		if as, ok := n.(*ast.AssignStmt); ok && len(as.Rhs) == 1 && len(as.Lhs) == 2 {
